@@ -176,6 +176,9 @@ pub fn opts_for(prop: &str) -> GenOpts {
         "C07" => {
             o.kinds = ITER_KINDS.to_vec();
             o.w_skip = 5;
+            // length queries must not touch the wrapped iterator while somebody else may be
+            // using it (seeded change C07-r6: try_get_len consulting size_hint "when idle")
+            o.w_query = 12;
             o.min_threads = 2;
             o.targeted_bias = true;
             o.stale_pct = 25;
